@@ -483,3 +483,46 @@ def decide(ctx, broken, failures, mismatches, search=None, max_lines=3):
         what["first_mismatches"] = mismatches[:5]
         what["mismatch_count"] = len(mismatches)
     report_violation(ctx, what, no_input=True)
+
+
+# ---------------------------------------------------------------------------
+# Independent re-check with coqchk (thorough tier, one designated check per Coq project)
+# ---------------------------------------------------------------------------
+
+COQCHK_DESIGNATED = {"C01": ["cron", "zcompose"], "C07": ["parser"], "C11": ["queue"], "C09": ["sched"],
+                     "C05": ["loop"], "C16": ["jobs"], "C18": ["logger"]}
+
+
+def coqchk_project(proj, timeout=3000):
+    d = coq_dir(proj)
+    logical = None
+    for line in open(os.path.join(d, "_CoqProject")):
+        t = line.split()
+        if len(t) == 3 and t[0] == "-Q" and t[1] == "theories":
+            logical = t[2]
+    pdir = os.path.join(d, "theories", "Props")
+    libs = sorted("%s.Props.%s" % (logical, f[:-2]) for f in os.listdir(pdir) if f.endswith(".v"))
+    rc, out = run(["coqchk", "-silent", "-o"] + coq_args(proj) + libs, cwd=d, timeout=timeout)
+    tail = out[out.find("CONTEXT SUMMARY"):] if "CONTEXT SUMMARY" in out else out[-2000:]
+    axioms = re.search(r"\* Axioms:(.*?)\n\s*\n\* ", tail + "\n\n* ", flags=re.S)
+    return {"project": proj, "libraries": libs, "ok": rc == 0,
+            "axioms": (axioms.group(1).strip() if axioms else "?"), "summary": tail[:2500]}
+
+
+def coqchk_step(ctx):
+    """Run after a thorough check of a designated property: coqchk -o on the Props libraries of its project(s);
+    the result is merged into the evidence file; a failing re-check is reported as a broken proof."""
+    projs = COQCHK_DESIGNATED.get(ctx.prop)
+    if not projs:
+        return
+    results = [coqchk_project(p) for p in projs]
+    ep = os.path.join(EVID, ctx.prop + ".json")
+    if os.path.exists(ep):
+        ev = json.load(open(ep))
+        ev["coverage"]["coqchk"] = results
+        ev["wall_s"] = ctx.wall()
+        json.dump(ev, open(ep, "w"), indent=1, sort_keys=True, default=str)
+    bad = [r for r in results if not r["ok"] or r["axioms"] not in ("<none>",)]
+    if bad:
+        report_violation(ctx, {"no_longer_checks": {"stage": "coqchk", "what": "coqchk does not accept the compiled libraries or reports axioms",
+                                                    "detail": bad}}, no_input=True)
